@@ -134,8 +134,19 @@ func registerMain() {
 	check("after registration")
 	victim := nodes[vrt.Choose(nf, true, "victim")]
 	vrt.Window(true)
-	switch vrt.Choose(6, true, "disturbance") {
+	switch vrt.Choose(7, true, "disturbance") {
 	case 0:
+	case 6:
+		// one follower's connection TO the leader breaks while that follower cannot be dialled for a while (its
+		// listener is unreachable; the leader's established connection to it keeps working). The follower
+		// notices, reconnects, registers again; the leader cannot dial back and answers with an error. Nobody
+		// died: the numbering in effect stays what it is (the leader still reaches the follower over the old
+		// connection).
+		vrpc.ResetTo(addr(leader.id))
+		vrpc.Refuse(addr(victim.id), true)
+		hist = append(hist, fmt.Sprintf("connections to the leader reset, %s not reachable for new connections for 12 s", victim.id.Name))
+		vrt.Sleep(12 * time.Second)
+		vrpc.Refuse(addr(victim.id), false)
 	case 5:
 		// a new instance registers while its own RPC listener is not reachable yet: the leader cannot connect
 		// back, the registration fails, the process exits and is restarted by its supervisor - this time with
